@@ -1,0 +1,13 @@
+//go:build verif
+
+// Contracts for package internal/fields, read by /verif/engine (govc). Comment-only.
+package fields
+
+// ---- C13 (a row survives the trip through its SQL values): `implicitnull` writes the ZERO value of a column as NULL and
+// reads NULL back as the zero value - so "zero" must be exactly Go's zero value. For a string that is the empty string
+// (length 0) and nothing else: a value that is merely blank would be written as NULL and come back as "".
+// (kinds: 1 bool, 24 string, 17 array; reflect's numbering)
+//@ func isZero
+//@   ensures reflectKind(v) == 24 ==> (result <==> reflectLen(v) == 0)
+//@   ensures reflectKind(v) == 17 ==> (result <==> reflectLen(v) == 0)
+//@   ensures reflectKind(v) == 0 ==> result
